@@ -155,7 +155,7 @@ def check_copy_statement(ctx, w, n, n2, before_ids, script):
 def run(ctx):
     built = ctx.build(extra_targets=["theories/Model/HeapRun.v"])
     thorough = ctx.tier == "thorough"
-    ntrees = 160 if thorough else 40
+    ntrees = 400 if thorough else 40
     nmodel_edits = 10 if thorough else 5
     ctx.extra["rule"] = ("random forests of 1-6 nodes built by create / setter / attribute / extras / declare / undeclare / attach "
                          "histories in shuffled order; copy() of a random node; then every single edit of the list in edits_for() on every "
